@@ -18,6 +18,7 @@ _PEER = [None]
 
 class C18(Check):
     PROP = "C18"
+    CRASH_ORACLE = "C18.alias"
     WORLD = "V"
     RULE = ("each run = one generated workspace read twice independently (plus a copy with one minimally mutated definition), from "
             "which composites, services' request / response, nested types, arrays, primitives, fields, paddings, constants, "
@@ -226,6 +227,29 @@ class C18(Check):
                     if now != before[n]:
                         out.fail("C18.alias", "%s: a BitLengthSet built by %s changed when the caller's set was modified afterwards: %s -> %s" % (k, n, before[n][:3], now[:3]), "alias:bls-operand")
                 out.stats["bls_built_from_caller_sets"] += 1
+            # (1c) a client computes with the bit length sets of the types (offset + set, set | n, repeat ...): the types are values
+            for k, o in [x for x in oa if isinstance(x[1], pydsdl.SerializableType)][:40]:
+                try:
+                    b0 = o.bit_length_set
+                except TypeError:
+                    continue
+                before = [b0.min, b0.max, sorted(b0 % 64), sorted(b0 % 7), hash(b0), hash(o), str(o)]
+                _ = (b0 + 8, b0 + {0, 16}, 24 + b0, b0 | 8, b0.repeat(2), b0.repeat_range(3), b0.pad_to_alignment(16), pydsdl.BitLengthSet.concatenate([b0, b0, 8]), pydsdl.BitLengthSet.unite([b0, 8]))
+                c0 = b0 + 16
+                _ = c0 + 24
+                b1 = o.bit_length_set
+                after = [b1.min, b1.max, sorted(b1 % 64), sorted(b1 % 7), hash(b1), hash(o), str(o)]
+                out.stats["client_set_arithmetic"] += 1
+                if after != before:
+                    out.fail("C18.alias", "%s (%s): computing with the type's bit_length_set (+, |, repeat, pad, concatenate, unite) changed the type: min / max / residues %s -> %s" % (k, type(o).__name__, before[:3], after[:3]), "alias:bls-arithmetic")
+                twin = db.get(k)
+                if twin is not None:
+                    # answers that were never asked before (nothing memoised) against the untouched twin from the second read
+                    tb = twin.bit_length_set
+                    fresh = [sorted(b1 % d0) for d0 in (11, 13, 37)]
+                    want = [sorted(tb % d0) for d0 in (11, 13, 37)]
+                    if fresh != want:
+                        out.fail("C18.alias", "%s (%s): after a client computed with the type's bit_length_set its residues mod 11 / 13 / 37 are %s; the untouched twin built from the same files has %s" % (k, type(o).__name__, fresh, want), "alias:bls-arithmetic")
             # (2) equality / hash contract between independently built objects
             for k, o in oa:
                 p = db.get(k)
@@ -277,6 +301,23 @@ class C18(Check):
                 out.stats["kind_lookalike_pairs"] += 1
                 if same_bls and type(ta) is not type(tb) and ((ta == tb) or (tb == ta)):
                     out.fail("C18.distinct", "a sealed structure and a delimited structure with the same name, version and bit length set %s compare equal (%s vs %s)" % (sorted(ta.bit_length_set)[:4], type(ta).__name__, type(tb).__name__), "distinct:kind-lookalike")
+                # same name, version and kind, different bit length sets that share their minimum (one fixed-length, one not) or
+                # their minimum and maximum: must be unequal; and whenever two bit length sets compare equal their hashes agree
+                w8 = 8 * (1 + n % 4)
+                for ia, ib in (([["f", ["u", w8, "s"], "a"]], [["f", ["var", ["u", w8, "s"], 1], "a"]]),
+                               ([["f", ["arr", ["u", 8, "s"], 1 + n % 3], "a"]], [["f", ["var", ["u", 8, "s"], n % 3], "a"]] if n % 3 else [["f", ["u", 8, "s"], "a"], ["f", ["var", ["u", 8, "s"], 2], "b"]]),
+                               ([["f", ["var", ["u", 8, "s"], 2], "a"]], [["f", ["var", ["u", 16, "s"], 1], "a"]])):
+                    na, nb = Node(one(ia, "sealed")), Node(one(ib, "sealed"))
+                    nodes += [na, nb]
+                    xa, xb = na.types["kt.Twin.1.0"], nb.types["kt.Twin.1.0"]
+                    sa, sb = set(xa.bit_length_set), set(xb.bit_length_set)
+                    out.stats["bls_lookalike_pairs"] += 1
+                    if sa != sb and xa.bit_length_set.min == xb.bit_length_set.min and ((xa == xb) or (xb == xa)) and (xa.bit_length_set.max != xb.bit_length_set.max):
+                        out.fail("C18.distinct", "two structures with the same name and version whose bit length sets %s and %s differ compare equal" % (sorted(sa), sorted(sb)), "distinct:bls-lookalike")
+                    if (xa.bit_length_set == xb.bit_length_set) and hash(xa.bit_length_set) != hash(xb.bit_length_set):
+                        out.fail("C18.bls-eq", "bit length sets %s and %s compare equal but hash differently" % (sorted(sa), sorted(sb)), "bls-eq-hash")
+                    if (xa == xb) and hash(xa) != hash(xb):
+                        out.fail("C18.eqhash", "types with bit length sets %s and %s compare equal but hash differently" % (sorted(sa), sorted(sb)), "hash:lookalike")
             except NodeError:
                 pass
             # (3) pickle through a second interpreter with another hash seed
